@@ -32,7 +32,7 @@ CLAIMS = {
             "kernels' partial operations (division by n.dv, normalised cross products) are guarded by the parallel tests; (4) a numeric "
             "ordering comparison that leads straight to `return None` leaves a tolerance margin (merely touching operands are not "
             "reported as disjoint because of float noise). "
-            "Also decided (round 9): no position / direction mismatch in the code the property reaches and in the constructors of its operands (affine weights: a Vector argument in a constructor slot or move() must have the weight the slot fixes); the handlers' internal sanity raises are unreachable (also through type switches whose rows test different variables); each handler is bound by the dispatcher in one orientation; the linear solver picks its pivot by the pivot column. Round 10: no computed number is rounded on its way into the result (R1.9); the solver's pivot is chosen by magnitude (R1.5); a Segment built from an end point of each operand is guarded by a test that they differ (R1.10). NOT decided: that the kernels compute the right coordinates, that no point is missed in generic position, "
+            "Also decided (round 9): no position / direction mismatch in the code the property reaches and in the constructors of its operands (affine weights: a Vector argument in a constructor slot or move() must have the weight the slot fixes); the handlers' internal sanity raises are unreachable (also through type switches whose rows test different variables); each handler is bound by the dispatcher in one orientation; the linear solver picks its pivot by the pivot column. Round 10: no computed number is rounded on its way into the result (R1.9); the solver's pivot is chosen by magnitude (R1.5); a Segment built from an end point of each operand is guarded by a test that they differ (R1.10). Round 12: a Segment built from two items of a plain list needs every append behind a `not in` filter (R1.10). NOT decided: that the kernels compute the right coordinates, that no point is missed in generic position, "
             "the tolerance band, None only when disjoint."
         ),
         note=NOTE_COMMON + "A4: the three numeric kernels and the membership predicates compute what their names say.",
@@ -230,7 +230,7 @@ CLAIMS = {
             "sits in a loop over the validated collection that no iteration can complete without; unsupported operand "
             "types make intersection/distance/angle/parallel/orthogonal/volume/move and the typed constructors raise "
             "(abstract evaluation on the unsupported types); exception objects are raised, not returned; constructors "
-            "assign all their fields. Also decided (round 9): repeated vertices are merged before the first three stored vertices define the plane (R15.5). NOT decided: rejections that happen only through arithmetic/index exceptions "
+            "assign all their fields. Also decided (round 9): repeated vertices are merged before the first three stored vertices define the plane (R15.5). Round 12: a length is compared with the tolerance, a squared length with the squared tolerance (R15.6). NOT decided: rejections that happen only through arithmetic/index exceptions "
             "(zero normal, collinear plane points, <3 distinct vertices) and whether the guards are sufficient."
         ),
         note=NOTE_COMMON + "Guards are recognised by CFG shape and data dependence, never by text.",
